@@ -1,6 +1,6 @@
 From Coq Require Import Reals Bool Lra.
 From PP Require Import Kern.RBool C02.Spec Gen.KHydIncompNp Gen.KHydIncompNb Gen.KHydCompNp Gen.KHydCompNb Gen.KPmNp
-  Gen.KCalcLambda Gen.KBasicRes Gen.KGasResNp Gen.KPamb.
+  Gen.KFriction Gen.KBasicRes Gen.KGasResNp Gen.KPamb.
 Open Scope R_scope.
 
 Lemma Rabs_sq_pos m : 0 <= m -> Rabs m * m = m ^ 2.
@@ -28,10 +28,10 @@ Proof.
   intros until rho. intros HA HD Hr lv v. subst lv v.
   unfold doc_p_loss, g_doc, bar.
   destruct nb; unfold hyd_incomp_nb_load_vec, hyd_incomp_np_load_vec; cbv zeta; split; intros Hm.
-  - rewrite Rabs_sq_pos by exact Hm. field. repeat split; assumption.
-  - rewrite Rabs_sq_neg by exact Hm. field. repeat split; assumption.
-  - rewrite Rabs_sq_pos by exact Hm. field. repeat split; assumption.
-  - rewrite Rabs_sq_neg by exact Hm. field. repeat split; assumption.
+  - rewrite (Rabs_right bp_MDOTINIT) by lra. field. repeat split; assumption.
+  - rewrite (Rabs_left1 bp_MDOTINIT) by exact Hm. field. repeat split; assumption.
+  - rewrite (Rabs_right bp_MDOTINIT) by lra. field. repeat split; assumption.
+  - rewrite (Rabs_left1 bp_MDOTINIT) by exact Hm. field. repeat split; assumption.
 Qed.
 
 (* gas residual = integrated form of the documented differential law:  p dp = -C dl  =>  (P_i^2 - P_{i+1}^2)/2 = C L,
@@ -55,8 +55,7 @@ Proof.
   intros until rho_n. intros HA HD Hr Hp Hm lv vN Tm Pi Pi1. subst lv vN Tm Pi Pi1.
   unfold doc_gas_coeff, g_doc, bar, pN_pa, TN_k.
   destruct nb; unfold hyd_comp_nb_load_vec, hyd_comp_np_load_vec; cbv zeta;
-    replace (bp_MDOTINIT * Rabs bp_MDOTINIT) with (bp_MDOTINIT ^ 2) by (rewrite Rabs_right by lra; ring);
-    field; repeat split; assumption.
+    rewrite (Rabs_right bp_MDOTINIT) by lra; field; repeat split; assumption.
 Qed.
 
 (* mean pressure: the standard form 2/3 (p_i + p_{i+1} - p_i p_{i+1} / (p_i + p_{i+1})) of the mean of a profile with
@@ -79,4 +78,129 @@ Proof.
   rewrite E. split.
   - apply (Rmult_lt_reg_r (a + b)); [exact Hs |]. unfold Rdiv at 1. rewrite Rmult_assoc, Rinv_l by lra. nra.
   - apply (Rmult_lt_reg_r (a + b)); [exact Hs |]. unfold Rdiv at 1. rewrite Rmult_assoc, Rinv_l by lra. nra.
+Qed.
+
+(* friction factor: the value the solver uses (calc_lambda, both engines) = documented formula *)
+Lemma lambda_nikuradse_lemma : forall area d eta k m : R,
+  1 / 100000000 < Rabs m * d / (eta * area) ->
+  let re := calc_lambda_nik_liq_np_re area d eta k m in
+  re = Rabs m * d / (eta * area) /\
+  calc_lambda_nik_liq_np_lambda_ area d eta k m = doc_lambda_nikuradse re k d /\
+  calc_lambda_nik_liq_nb_lambda_ area d eta k m = doc_lambda_nikuradse re k d /\
+  calc_lambda_nik_liq_nb_re area d eta k m = re.
+Proof.
+  intros area d eta k m Hre re. subst re.
+  unfold calc_lambda_nik_liq_np_re, calc_lambda_nik_liq_nb_re, calc_lambda_nik_liq_np_lambda_,
+    calc_lambda_nik_liq_nb_lambda_, doc_lambda_nikuradse. cbv zeta.
+  rewrite Rltb_negb_Rleb.
+  assert (Hpos : 0 < Rabs m * d / (eta * area)) by lra.
+  rewrite (Rabs_right (Rabs m * d / (eta * area))) by lra.
+  destruct (Rleb_spec (Rabs m * d / (eta * area)) (1 / 100000000)); [lra |]. simpl. repeat split; reflexivity.
+Qed.
+
+Lemma lambda_swamee_jain_lemma : forall area d eta k m : R,
+  let re := calc_lambda_sj_liq_np_re area d eta k m in
+  re = Rabs m * d / (eta * area) /\
+  calc_lambda_sj_liq_np_lambda_ area d eta k m = doc_lambda_swamee_jain re k d /\
+  calc_lambda_sj_liq_nb_lambda_ area d eta k m = doc_lambda_swamee_jain re k d /\
+  calc_lambda_sj_gas_np_lambda_ area d eta k m = doc_lambda_swamee_jain re k d /\
+  calc_lambda_sj_gas_nb_lambda_ area d eta k m = doc_lambda_swamee_jain re k d.
+Proof.
+  intros area d eta k m re. subst re.
+  unfold calc_lambda_sj_liq_np_re, calc_lambda_sj_liq_np_lambda_, calc_lambda_sj_liq_nb_lambda_,
+    calc_lambda_sj_gas_np_lambda_, calc_lambda_sj_gas_nb_lambda_, doc_lambda_swamee_jain. cbv zeta.
+  replace (25 / 100) with (1 / 4) by lra. replace (574 / 100) with (287 / 50) by lra. repeat split; reflexivity.
+Qed.
+
+(* gases: the code uses 2 log(d/k) + 1.14; this is the documented form with 10^0.57 (= 3.7154) in place of 3.71 *)
+Lemma log10_Rpower10 x : log10 (Rpower 10 x) = x.
+Proof.
+  unfold log10, Rpower. rewrite ln_exp. field.
+  assert (0 < ln 10) by (rewrite <- ln_1; apply ln_increasing; lra). lra.
+Qed.
+
+Lemma ln10_pos : 0 < ln 10.
+Proof. rewrite <- ln_1. apply ln_increasing; lra. Qed.
+Lemma log10_div a b : 0 < a -> 0 < b -> log10 (a / b) = log10 a - log10 b.
+Proof.
+  intros. unfold log10. unfold Rdiv. rewrite ln_mult by (try apply Rinv_0_lt_compat; assumption).
+  rewrite ln_Rinv by assumption. field. pose proof ln10_pos. lra.
+Qed.
+Lemma log10_mult a b : 0 < a -> 0 < b -> log10 (a * b) = log10 a + log10 b.
+Proof. intros. unfold log10. rewrite ln_mult by assumption. field. pose proof ln10_pos. lra. Qed.
+
+Lemma lambda_nikuradse_gas_lemma : forall area d eta k m : R, 0 < d -> 0 < k ->
+  1 / 100000000 < Rabs m * d / (eta * area) ->
+  calc_lambda_nik_gas_np_lambda_ area d eta k m =
+    64 / (Rabs m * d / (eta * area)) + 1 / (- 2 * log10 (k / (Rpower 10 (57 / 100) * d))) ^ 2 /\
+  calc_lambda_nik_gas_nb_lambda_ area d eta k m = calc_lambda_nik_gas_np_lambda_ area d eta k m.
+Proof.
+  intros area d eta k m Hd Hk Hre.
+  unfold calc_lambda_nik_gas_np_lambda_, calc_lambda_nik_gas_nb_lambda_. cbv zeta.
+  rewrite Rltb_negb_Rleb.
+  rewrite (Rabs_right (Rabs m * d / (eta * area))) by lra.
+  destruct (Rleb_spec (Rabs m * d / (eta * area)) (1 / 100000000)); [lra |]. simpl. split; [| reflexivity].
+  assert (Hc : 0 < Rpower 10 (57 / 100)) by (unfold Rpower; apply exp_pos).
+  assert (E : 2 * log10 (d / k) + 57 / 50 = - 2 * log10 (k / (Rpower 10 (57 / 100) * d))).
+  { rewrite (log10_div d k), (log10_div k) by (try apply Rmult_lt_0_compat; assumption).
+    rewrite log10_mult, log10_Rpower10 by assumption. lra. }
+  rewrite E. reflexivity.
+Qed.
+
+(* reported values *)
+Lemma reported_lemma :
+  (forall bp_AREA bp_DP_FRICT_LOSS bp_LAMBDA bp_LOSS_COEFFICIENT bp_MDOTINIT bp_PL bp_QEXT bp_RE bp_TOUTINIT
+          np_from_PINIT np_from_TINIT np_to_PINIT np_to_TINIT rho_real : R, bp_AREA <> 0 -> rho_real <> 0 ->
+     basic_liq_v_mps bp_AREA bp_DP_FRICT_LOSS bp_LAMBDA bp_LOSS_COEFFICIENT bp_MDOTINIT bp_PL bp_QEXT bp_RE bp_TOUTINIT
+          np_from_PINIT np_from_TINIT np_to_PINIT np_to_TINIT rho_real * rho_real * bp_AREA = bp_MDOTINIT /\
+     basic_liq_p_from bp_AREA bp_DP_FRICT_LOSS bp_LAMBDA bp_LOSS_COEFFICIENT bp_MDOTINIT bp_PL bp_QEXT bp_RE bp_TOUTINIT
+          np_from_PINIT np_from_TINIT np_to_PINIT np_to_TINIT rho_real = np_from_PINIT /\
+     basic_liq_p_to bp_AREA bp_DP_FRICT_LOSS bp_LAMBDA bp_LOSS_COEFFICIENT bp_MDOTINIT bp_PL bp_QEXT bp_RE bp_TOUTINIT
+          np_from_PINIT np_from_TINIT np_to_PINIT np_to_TINIT rho_real = np_to_PINIT /\
+     basic_liq_mf_from bp_AREA bp_DP_FRICT_LOSS bp_LAMBDA bp_LOSS_COEFFICIENT bp_MDOTINIT bp_PL bp_QEXT bp_RE bp_TOUTINIT
+          np_from_PINIT np_from_TINIT np_to_PINIT np_to_TINIT rho_real = bp_MDOTINIT /\
+     basic_liq_reynolds bp_AREA bp_DP_FRICT_LOSS bp_LAMBDA bp_LOSS_COEFFICIENT bp_MDOTINIT bp_PL bp_QEXT bp_RE bp_TOUTINIT
+          np_from_PINIT np_from_TINIT np_to_PINIT np_to_TINIT rho_real = bp_RE /\
+     basic_liq_lambda bp_AREA bp_DP_FRICT_LOSS bp_LAMBDA bp_LOSS_COEFFICIENT bp_MDOTINIT bp_PL bp_QEXT bp_RE bp_TOUTINIT
+          np_from_PINIT np_from_TINIT np_to_PINIT np_to_TINIT rho_real = bp_LAMBDA) /\
+  (forall (bp_AREA bp_DP_FRICT_LOSS bp_LAMBDA bp_LOSS_COEFFICIENT bp_MDOTINIT bp_PL bp_QEXT bp_RE bp_TOUTINIT : R)
+          (fl_density : R -> R) (np_from_PINIT np_from_TINIT np_to_PINIT np_to_TINIT : R),
+     bp_AREA <> 0 -> fl_density TN_k <> 0 ->
+     basic_gas_v_mps bp_AREA bp_DP_FRICT_LOSS bp_LAMBDA bp_LOSS_COEFFICIENT bp_MDOTINIT bp_PL bp_QEXT bp_RE bp_TOUTINIT
+          fl_density np_from_PINIT np_from_TINIT np_to_PINIT np_to_TINIT * fl_density TN_k * bp_AREA = bp_MDOTINIT) /\
+  (forall area d eta k m : R, eta <> 0 -> area <> 0 ->
+     calc_lambda_nik_liq_np_re area d eta k m * eta * area = Rabs m * d) /\
+  (forall (bp_FROM_NODE_T_SWITCHED bp_TOUTINIT : R) (fl_compressibility : R -> R -> R)
+          (np_from_PAMB np_from_TINIT np_to_PAMB np_to_TINIT p_from p_to v_mps : R),
+     np_from_PAMB + p_from <> 0 -> np_to_PAMB + p_to <> 0 ->
+     let tf := if negb (Reqb bp_FROM_NODE_T_SWITCHED 0) then np_to_TINIT else np_from_TINIT in
+     gasres_np_v_gas_from bp_FROM_NODE_T_SWITCHED bp_TOUTINIT fl_compressibility np_from_PAMB np_from_TINIT np_to_PAMB
+          np_to_TINIT p_from p_to v_mps
+       = v_mps * gasres_np_normfactor_from bp_FROM_NODE_T_SWITCHED bp_TOUTINIT fl_compressibility np_from_PAMB np_from_TINIT
+          np_to_PAMB np_to_TINIT p_from p_to v_mps /\
+     gasres_np_normfactor_from bp_FROM_NODE_T_SWITCHED bp_TOUTINIT fl_compressibility np_from_PAMB np_from_TINIT
+          np_to_PAMB np_to_TINIT p_from p_to v_mps
+       = doc_normfactor (np_from_PAMB + p_from) tf (fl_compressibility (np_from_PAMB + p_from) tf) /\
+     gasres_np_normfactor_to bp_FROM_NODE_T_SWITCHED bp_TOUTINIT fl_compressibility np_from_PAMB np_from_TINIT
+          np_to_PAMB np_to_TINIT p_from p_to v_mps
+       = doc_normfactor (np_to_PAMB + p_to) bp_TOUTINIT (fl_compressibility (np_to_PAMB + p_to) bp_TOUTINIT)).
+Proof.
+  split; [| split; [| split]].
+  - intros. unfold basic_liq_v_mps, basic_liq_p_from, basic_liq_p_to, basic_liq_mf_from, basic_liq_reynolds,
+      basic_liq_lambda. cbv zeta. repeat split; try reflexivity. field. split; assumption.
+  - intros. unfold basic_gas_v_mps, TN_k in *. cbv zeta. replace (5463 / 20) with (27315 / 100) by lra.
+    field. split; assumption.
+  - intros. unfold calc_lambda_nik_liq_np_re. cbv zeta. field. split; assumption.
+  - intros until v_mps. intros Hf Ht tf. subst tf.
+    unfold gasres_np_v_gas_from, gasres_np_normfactor_from, gasres_np_normfactor_to, doc_normfactor, pN_pa, bar, TN_k.
+    cbv zeta. split; [reflexivity |]. split.
+    + destruct (negb (Reqb bp_FROM_NODE_T_SWITCHED 0)); field; lra.
+    + field. lra.
+Qed.
+
+Lemma pamb_lemma : forall h : R, p_correction_height_air_p h = doc_p_air h.
+Proof.
+  intros h. unfold p_correction_height_air_p, doc_p_air.
+  replace (101325 / 100000) with (4053 / 4000) by lra. replace (65 / 10000) with (13 / 2000) by lra.
+  replace (28815 / 100) with (5763 / 20) by lra. replace (5255 / 1000) with (1051 / 200) by lra. reflexivity.
 Qed.
